@@ -837,7 +837,8 @@ CHECKS = {
                "the logged exp2 representation must be within 1 of some integer in the enclosure of floor(2^x / 2^E) (exact "
                "for integral x when representable); each constant within one unit of the last place.",
                "the enclosure is ~2^-70 wide, so on a vanishing set of inputs the check errs towards acceptance; trusted: the "
-               "13 literal constants (cross-checked against sympy at setup)"),
+               "13 literal constants (cross-checked against sympy at setup); rejected exp2 events must equal alg/AsCodedExp2.tla (the "
+               "all-fraction Horner pipeline with the header's coefficients) to count as the listed finding"),
     "C16": chk(["fraction"], [],
                "events = +,-,*,/ , unary -/+, the six comparisons, reduce, canonical, std::hash on pairs (n,d)/(k*n,k*d), and "
                "explicit conversion to float/double on cnl::fraction<T>, T = int8..int64; unary operations over every 8-bit "
@@ -859,7 +860,9 @@ CHECKS = {
                "evaluated by TLC on every recorded call (trace validation)",
                "termination (no watchdog event), d > 0, sign, range, exact-or-close as the property states.",
                "reading decision: 'equals the input' is accepted exactly or as a floating-point value of the input's format "
-               "(the library's own exit test); the as-coded mediant search is not yet modelled"),
+               "(the library's own exit test); rejected events must equal alg/AsCodedMakeFraction.tla -- the mediant search with its jump "
+               "acceleration transcribed statement by statement, floating point rounded per operation, integers through CxxInt -- "
+               "to count as one of the two listed findings"),
     "C18": chk(["bits"], [],
                "events = one value of an unsigned (countl_zero ... log2p1, rotl/rotr for every count 0..2W) or signed "
                "(countl_rsb, countl_rb, countr_used, used_digits, leading_bits, trailing_bits) integer type; 8-bit and "
